@@ -900,6 +900,19 @@ func (w *svWorkload) script(v *svSnap) []rig.Tx {
 		}
 		return ""
 	}
+	// gapOp pauses / restarts the scripted idle-gap context with the given frequency, and only while it really sits in
+	// its idle gap: no batch in flight and the next batch queued for a height after the coming block
+	gapOp := func(freq uint64, op string) []rig.Tx {
+		id := findCtx(c0, "", func(rc svtypes.RequestContext) bool { return rc.Repeated && rc.RepeatedFrequency == freq })
+		if id == "" {
+			return nil
+		}
+		_, inFlight := v.ExpMark[id]
+		if nh, queued := v.NewMark[id]; inFlight || !queued || nh <= r.Height+1 {
+			return nil
+		}
+		return []rig.Tx{w.txCtxOp(c0, op, id, "", nil)}
+	}
 	switch w.n {
 	case 0:
 		p := v.Params
@@ -936,6 +949,9 @@ func (w *svWorkload) script(v *svSnap) []rig.Tx {
 			w.txCall(c1, "svc-b", []*rig.Account{P[2]}, w.hugeCap(), 3, false, 0, 0, "scripted"),
 			w.txModCreate(c1, svCreateArgs{Service: "svc-a", Providers: []string{P[0].Addr.String(), P[1].Addr.String()}, Consumer: c1.Addr.String(), FeeCap: w.hugeCap().String(), Timeout: 2, Repeated: true, Freq: 3, Total: 2, Threshold: 2}, "scripted"),
 		)
+		// idle-gap restart, variant A: frequency = timeout+4; paused right after batch 1 expired, restarted one block later,
+		// two blocks before the scheduled batch 2 (the restart must not add a second schedule)
+		txs = append(txs, w.txCall(c0, "svc-a", []*rig.Account{P[len(P)-1], o2}, w.hugeCap(), 2, true, 6, -1, "scripted-idle-gap-a"))
 		if w.cfg.Oracle {
 			txs = append(txs, r.Mk(o1, &svTag{Kind: "feed", Note: "create"}, &oracletypes.MsgCreateFeed{
 				FeedName: w.cfg.Alt + "-" + base, LatestHistory: 5, Description: "rate", Creator: o1.Addr.String(), ServiceName: "svc-rate",
@@ -944,8 +960,10 @@ func (w *svWorkload) script(v *svSnap) []rig.Tx {
 			}))
 		}
 	case 3:
+		// idle-gap restart, variant B: timeout 3, frequency 7; restarted 2 blocks (< timeout) before the scheduled batch 2
+		txs = append(txs, w.txCall(c0, "svc-a", []*rig.Account{P[len(P)-1], o2}, w.hugeCap(), 3, true, 7, -1, "scripted-idle-gap-b"))
 		// hostile: stranger pauses c0's context, a non-addressed provider answers
-		if id := findCtx(c0, "", nil); id != "" {
+		if id := findCtx(c0, "", func(rc svtypes.RequestContext) bool { return rc.RepeatedFrequency == 2 }); id != "" {
 			txs = append(txs, w.txCtxOp(c1, "pause", id, "stranger", nil), w.txCtxOp(o0, "kill", id, "stranger", nil))
 		}
 		for _, id := range sortedKeys(v.Active) {
@@ -974,10 +992,12 @@ func (w *svWorkload) script(v *svSnap) []rig.Tx {
 		if id := findCtx(c0, "", func(rc svtypes.RequestContext) bool { return rc.Repeated && rc.RepeatedFrequency == 5 }); id != "" {
 			txs = append(txs, w.txCtxOp(c0, "pause", id, "", nil))
 		}
+		txs = append(txs, gapOp(6, "pause")...)
 	case 6:
 		if id := findCtx(c0, "", func(rc svtypes.RequestContext) bool { return rc.Repeated && rc.RepeatedFrequency == 5 }); id != "" {
 			txs = append(txs, w.txCtxOp(c0, "start", id, "", nil))
 		}
+		txs = append(txs, gapOp(6, "start")...)
 		if id := findCtx(c1, "", func(rc svtypes.RequestContext) bool { return rc.Repeated && rc.RepeatedFrequency == 3 }); id != "" {
 			txs = append(txs, w.txCtxOp(c1, "pause", id, "", nil))
 		}
@@ -993,6 +1013,7 @@ func (w *svWorkload) script(v *svSnap) []rig.Tx {
 			}
 		}
 	case 7:
+		txs = append(txs, gapOp(7, "pause")...)
 		if len(w.gone) > 0 {
 			txs = append(txs, w.txRespond(P[0], w.gone[0], true, "", "after-expiry"))
 		}
@@ -1004,6 +1025,8 @@ func (w *svWorkload) script(v *svSnap) []rig.Tx {
 				w.txCall(c1, "svc-b", []*rig.Account{P[2], o2}, w.hugeCap(), 2, true, 2, -1, "scripted-two-denoms"),
 			)
 		}
+	case 8:
+		txs = append(txs, gapOp(7, "start")...)
 	case 9:
 		txs = append(txs, r.Mk(o1, &svTag{Kind: "disable"}, &svtypes.MsgDisableServiceBinding{ServiceName: "svc-a", Provider: P[1].Addr.String(), Owner: o1.Addr.String()}))
 	case 10:
@@ -1136,9 +1159,28 @@ func (w *svWorkload) intentAt(v *svSnap, ix int) (rig.Tx, bool) {
 		}
 	case 2, 3: // context operation by the consumer (2) or by a stranger (3)
 		var cand []string
+		var gap []string
 		for _, id := range ctxIDs {
 			if v.Ctxs[id].ModuleName == "" && w.mine(v.Ctxs[id].ServiceName) {
+				if k := w.known[id]; k != nil && k.Scripted && w.cfg.Scripted && w.n < svPrologueLen+2 {
+					continue // the prologue's own scenarios are still playing out on this context
+				}
 				cand = append(cand, id)
+				// contexts sitting in their idle gap (frequency > timeout): batch expired, next one queued for later
+				if _, inFlight := v.ExpMark[id]; !inFlight && v.NewMark[id] > r.Height+1 {
+					gap = append(gap, id)
+				}
+			}
+		}
+		if ix == 2 && len(gap) > 0 && rng.Intn(3) == 0 {
+			// pause, or restart, inside the idle gap
+			id := gap[rng.Intn(len(gap))]
+			if signer := w.byAddr[v.Ctxs[id].Consumer]; signer != nil {
+				op := "pause"
+				if v.Ctxs[id].State == svtypes.PAUSED {
+					op = "start"
+				}
+				return w.txCtxOp(signer, op, id, "", nil), true
 			}
 		}
 		if len(cand) == 0 {
@@ -1531,7 +1573,8 @@ func runService(run *ev.Run, c int, mode string) {
 		}
 	} else {
 		for _, n := range []string{"answered", "expired", "hostile-foreign-provider-rejected", "hostile-duplicate-rejected", "hostile-after-expiry-rejected", "hostile-stranger-rejected",
-			"one-shot-removed", "period-checked", "paused-block", "auto-pause", "total-reached", "callback-threshold-met", "callback-threshold-unmet", "empty-batch", "queue-check"} {
+			"one-shot-removed", "period-checked", "paused-block", "auto-pause", "total-reached", "callback-threshold-met", "callback-threshold-unmet", "empty-batch", "queue-check",
+			"restart-in-idle-gap", "restart-in-idle-gap-less-than-timeout-before-batch"} {
 			run.Require(n, 1)
 		}
 	}
@@ -2110,7 +2153,19 @@ func (d *svDirector) c08Tx(br *rig.BlockRecord, tx *rig.TxRecord, tag *svTag, pr
 		case *svtypes.MsgPauseRequestContext:
 			d.c08Authority(br, pre, strings.ToUpper(m.RequestContextId), m.Consumer, "pause", detail)
 		case *svtypes.MsgStartRequestContext:
-			d.c08Authority(br, pre, strings.ToUpper(m.RequestContextId), m.Consumer, "start", detail)
+			id := strings.ToUpper(m.RequestContextId)
+			d.c08Authority(br, pre, id, m.Consumer, "start", detail)
+			if nh, queued := pre.NewMark[id]; queued && nh > br.Height {
+				if _, inFlight := pre.ExpMark[id]; !inFlight {
+					// restarted inside the idle gap between an expired batch and the next, already scheduled one
+					run.Count("restart-in-idle-gap", 1)
+					near := nh-br.Height < pre.Ctxs[id].Timeout
+					if near {
+						run.Count("restart-in-idle-gap-less-than-timeout-before-batch", 1)
+					}
+					run.Class("restart-in-idle-gap", fmt.Sprint("blocks-before-batch=", nh-br.Height), fmt.Sprint("less-than-timeout=", near))
+				}
+			}
 		case *svtypes.MsgKillRequestContext:
 			d.c08Authority(br, pre, strings.ToUpper(m.RequestContextId), m.Consumer, "kill", detail)
 		case *svtypes.MsgUpdateRequestContext:
